@@ -42,7 +42,20 @@ def run(ctx):
     ctx.use_files("suit_generator/cmd_cache_create.py")
     ev0 = Evaluator(repo, inline_depth=0)
     slot_rules(ctx, ev0)
-    padding_rules(ctx, ev0)
+    ev = ev0
+    try:
+        padding_rules(ctx, ev)
+    except AnalysisError as err:
+        # the proof rules do not recognise the form: look for a concrete counterexample by evaluating the function's result term
+        # on a grid of sizes (sound as a refutation); without one the analysis cannot stand behind a verdict
+        wit = refute_padding(ctx, ev)
+        if wit is None:
+            raise
+        fi_ = ctx.repo.func(MOD, "CachePartition.add_padding")
+        R.rule("C10-D2r padding result (refutation)", 1, "add_padding(data) = data + one well-formed padding entry, total length a multiple of the block size")
+        R.fail("C10-D2r padding result (refutation)", "add_padding", mod=fi_.module, node=fi_.node, function=ctx.fq(fi_),
+               expected="data | 60 | bstr header | zeros with len(result) % eb_size == 0 and a header that declares exactly the zeros that follow",
+               found=f"len(data)={wit[0]}, eb_size={wit[1]}: {wit[2]}  (proof rules: {str(err)[:120]})")
     close_merge_rules(ctx, ev0)
 
 
@@ -179,6 +192,62 @@ def feasible_below(Pterm, conds, P0, B, n):
             except Unknown as e:
                 raise AnalysisError(f"padding guard not evaluable: {e}")
     return witnesses
+
+
+def refute_padding(ctx, ev):
+    """Evaluate add_padding's outcome terms for concrete sizes; returns (len, eb, what) for the first malformed result."""
+    from sa.teval import Raised, Unknown, teval
+    fi = ctx.repo.func(MOD, "CachePartition.add_padding")
+    outs = ev.outcomes(fi)
+    EB = App("attr:eb_size", (SELF,))
+    for eb in (1, 2, 3, 4, 7, 8, 12, 16, 24, 25, 26, 31, 32, 48, 64, 100, 128, 192, 193, 255, 256, 257, 500, 1024, 4096):
+        lens = sorted({n for n in (0, 1, 2, 3, eb - 2, eb - 1, eb, eb + 1, eb + 2, 2 * eb - 2, 2 * eb - 1, 2 * eb, 3 * eb + 5, 5 * eb - 1, 23, 24, 25, 255, 256, 257)
+                       if n >= 0} | set(range(0, min(eb, 40))))
+        for n in lens:
+            data = bytes([0xA5]) * n
+            env = {P("data"): data, EB: eb}
+            chosen = None
+            try:
+                for o in outs:
+                    if all(bool(teval(c, env)) for c in o.conds):
+                        chosen = o
+                        break
+                if chosen is None:
+                    return None
+                if chosen.kind == "raise":
+                    return n, eb, "raises although a padding of at most eb_size + 1 bytes is needed"
+                v = teval(chosen.value, env)
+            except Raised:
+                return n, eb, "raises"
+            except Unknown:
+                return None
+            except Exception as e:  # the evaluated expression itself fails for these sizes (e.g. byte value out of range)
+                return n, eb, f"the result expression fails: {type(e).__name__}: {e}"
+            if not isinstance(v, (bytes, bytearray)):
+                return None
+            if len(v) % eb != 0:
+                return n, eb, f"result length {len(v)} is not a multiple of the block size"
+            if v[:n] != data:
+                return n, eb, "the slot bytes are modified"
+            tail = v[n:]
+            if not tail:
+                continue
+            if len(tail) < 2 or tail[0] != 0x60:
+                return n, eb, f"padding entry does not start with the empty key (0x60): {tail[:4].hex()}"
+            b = tail[1]
+            if 0x40 <= b <= 0x57:
+                hl, dl = 2, b - 0x40
+            elif b == 0x58 and len(tail) >= 3:
+                hl, dl = 3, tail[2]
+            elif b == 0x59 and len(tail) >= 4:
+                hl, dl = 4, int.from_bytes(tail[2:4], "big")
+            elif b == 0x5A and len(tail) >= 6:
+                hl, dl = 6, int.from_bytes(tail[2:6], "big")
+            else:
+                return n, eb, f"byte after the empty key is 0x{b:02x}: not a definite-length byte string header"
+            if len(tail) != hl + dl or any(tail[hl:]):
+                return n, eb, f"header declares {dl} bytes but {len(tail) - hl} follow (or they are not zero)"
+    return None
 
 
 def padding_rules(ctx, ev):
